@@ -53,4 +53,207 @@ theorem meta_charset_first (label : Bytes) (rest : List (Bytes × Bytes)) (ts : 
   rw [key rest _ _ _ _ hrest]
   simp
 
+/-! ### the two string extractors -/
+
+theorem dropWhile_ws (ws : Bytes) (x : Nat) (r : Bytes) (hws : ∀ c ∈ ws, isMetaWS c = true) (hx : isMetaWS x = false) :
+    (ws ++ x :: r).dropWhile isMetaWS = x :: r := by
+  induction ws with
+  | nil => simp [List.dropWhile, hx]
+  | cons c cs ih =>
+    have hc := hws c (List.mem_cons_self ..)
+    simp only [List.cons_append, List.dropWhile, hc]
+    exact ih (fun y hy => hws y (List.mem_cons_of_mem _ hy))
+
+theorem indexByte_first (q : Nat) (label tail : Bytes) (h : ∀ c ∈ label, c ≠ q) :
+    indexByte q (label ++ q :: tail) = some label.length := by
+  induction label with
+  | nil => simp [indexByte]
+  | cons c cs ih =>
+    have hc : (c == q) = false := by simpa using h c (List.mem_cons_self ..)
+    simp only [List.cons_append, indexByte, hc, Bool.false_eq_true, ↓reduceIte, List.length_cons]
+    rw [ih (fun y hy => h y (List.mem_cons_of_mem _ hy))]
+    rfl
+
+theorem takeUntil_label (p : Nat → Bool) (label tail : Bytes) (h : ∀ c ∈ label, p c = false)
+    (ht : tail = [] ∨ ∃ t ts, tail = t :: ts ∧ p t = true) : takeUntil p (label ++ tail) = label := by
+  induction label with
+  | nil =>
+    rcases ht with rfl | ⟨t, ts, rfl, hp⟩
+    · rfl
+    · simp [takeUntil, hp]
+  | cons c cs ih =>
+    have hc := h c (List.mem_cons_self ..)
+    simp only [List.cons_append, takeUntil, hc, Bool.false_eq_true, ↓reduceIte]
+    rw [ih (fun y hy => h y (List.mem_cons_of_mem _ hy))]
+
+/-- the forms a declared label can take after `charset` `=` -/
+inductive LabelForm (label : Bytes) : Bytes → Prop
+  | dquoted (tail : Bytes) : (∀ c ∈ label, c ≠ 0x22) → LabelForm label (0x22 :: label ++ 0x22 :: tail)
+  | squoted (tail : Bytes) : (∀ c ∈ label, c ≠ 0x27) → LabelForm label (0x27 :: label ++ 0x27 :: tail)
+  | bare (c : Nat) (cs tail : Bytes) : label = c :: cs → c ≠ 0x22 → c ≠ 0x27 →
+      (∀ x ∈ label, x ≠ 0x3B ∧ isMetaWS x = false) →
+      (tail = [] ∨ ∃ t ts, tail = t :: ts ∧ (t == 0x3B || isMetaWS t) = true) → LabelForm label (label ++ tail)
+
+/-- **`fromMetaElement`** (the WHATWG "extract a character encoding from a meta element"
+    algorithm): if the first `charset` in the content string is followed by optional white
+    space, `=`, optional white space and a label — double-quoted, single-quoted, or bare up to
+    `;` / white space / the end — the result is that label -/
+theorem fromMetaElement_spec (s : Bytes) (loc : Nat) (ws1 ws2 label V : Bytes)
+    (hloc : indexOf kwCharset s = some loc)
+    (hafter : s.drop (loc + 7) = ws1 ++ 0x3D :: (ws2 ++ V))
+    (h1 : ∀ c ∈ ws1, isMetaWS c = true) (h2 : ∀ c ∈ ws2, isMetaWS c = true)
+    (hV : LabelForm label V) : fromMetaElement s = label := by
+  have hne : s.isEmpty = false := by
+    cases s with
+    | nil => simp [indexOf, kwCharset] at hloc
+    | cons _ _ => rfl
+  unfold fromMetaElement
+  rw [fromMetaElementF]
+  simp only [hne, Bool.false_eq_true, ↓reduceIte, hloc, hafter]
+  rw [dropWhile_ws ws1 0x3D _ h1 (by decide)]
+  simp only [bne_self_eq_false, Bool.false_eq_true, ↓reduceIte]
+  cases hV with
+  | dquoted tail hq =>
+    simp only [List.cons_append]
+    rw [dropWhile_ws ws2 0x22 _ h2 (by decide)]
+    simp only [beq_self_eq_true, Bool.true_or, ↓reduceIte]
+    rw [indexByte_first 0x22 label tail hq]
+    simp
+  | squoted tail hq =>
+    simp only [List.cons_append]
+    rw [dropWhile_ws ws2 0x27 _ h2 (by decide)]
+    simp only [beq_self_eq_true, Bool.or_true, ↓reduceIte]
+    rw [indexByte_first 0x27 label tail hq]
+    simp
+  | bare c cs tail hl hn1 hn2 hall ht =>
+    subst hl
+    have hcw : isMetaWS c = false := (hall c (List.mem_cons_self ..)).2
+    simp only [List.cons_append]
+    rw [dropWhile_ws ws2 c _ h2 hcw]
+    have e1 : (c == 0x22) = false := by simpa using hn1
+    have e2 : (c == 0x27) = false := by simpa using hn2
+    simp only [e1, e2, Bool.or_self, Bool.false_eq_true, ↓reduceIte]
+    have := takeUntil_label (fun x => x == 0x3B || isMetaWS x) (c :: cs) tail
+      (fun x hx => by have := hall x hx; simp [this.1, this.2]) ht
+    simpa using this
+
+/-- **`xmlEncoding`**: the label between matching quotes after the first `encoding=` -/
+theorem xmlEncoding_spec (s : Bytes) (idx q : Nat) (label tail : Bytes)
+    (hidx : indexOf kwEncodingEq s = some idx) (hq : q = 0x22 ∨ q = 0x27)
+    (hafter : s.drop (idx + 9) = q :: label ++ q :: tail) (hl : ∀ c ∈ label, c ≠ q) :
+    xmlEncoding s = label := by
+  unfold xmlEncoding
+  simp only [hidx, hafter]
+  have : (q != 0x27 && q != 0x22) = false := by rcases hq with rfl | rfl <;> decide
+  simp only [List.cons_append, this, Bool.false_eq_true, ↓reduceIte]
+  rw [indexByte_first q label tail hl]
+  simp
+
+/-- XML: a declared encoding is reported in lower case -/
+theorem xml_declared (content inst : Bytes) (idx q : Nat) (label tail : Bytes)
+    (hidx : indexOf kwEncodingEq inst = some idx) (hq : q = 0x22 ∨ q = 0x27)
+    (hafter : inst.drop (idx + 9) = q :: label ++ q :: tail) (hl : ∀ c ∈ label, c ≠ q) (hne : label ≠ []) :
+    fromXML content (some inst) = lowerASCII label := by
+  unfold fromXML
+  simp only [xmlEncoding_spec inst idx q label tail hidx hq hafter hl]
+  have : (lowerASCII label != []) = true := by
+    cases label with
+    | nil => exact absurd rfl hne
+    | cons _ _ => simp [lowerASCII]
+  simp [this]
+
+/-! ### the pragma: `http-equiv="Content-Type"` + `content="…charset=ℓ"`, either order -/
+
+theorem metaAttrs_inert : ∀ (rest : List (Bytes × Bytes)) (seen : List Bytes) (g : Bool) (n : Need) (name : Bytes),
+    (∀ p ∈ rest, p.1 ≠ kContent ∧ p.1 ≠ kwCharset ∧ p.1 ≠ kHttpEquiv) →
+    metaAttrs rest seen g n name = (g, n, name) := by
+  intro rest
+  induction rest with
+  | nil => intros; rfl
+  | cons p ps ih =>
+    intro seen g n name hp
+    obtain ⟨k, v⟩ := p
+    have h1 := hp (k, v) (List.mem_cons_self ..)
+    simp only at h1
+    simp only [metaAttrs]
+    split
+    · exact ih _ _ _ _ (fun q hq => hp q (List.mem_cons_of_mem _ hq))
+    · have a1 : (k == kHttpEquiv) = false := by simpa using h1.2.2
+      have a2 : (k == kContent) = false := by simpa using h1.1
+      have a3 : (k == kwCharset) = false := by simpa using h1.2.1
+      simp only [a1, a2, a3, Bool.false_eq_true, ↓reduceIte]
+      exact ih _ _ _ _ (fun q hq => hp q (List.mem_cons_of_mem _ hq))
+
+def finalLabel (n : Bytes) : Bytes := if hasPrefix n kUtf16 then csUtf8 else n
+
+/-- **pragma**: a `<meta>` carrying `http-equiv` = Content-Type (any letter case) and a
+    `content` whose extracted label `ℓ` is non-empty decides, whichever attribute comes first
+    and whatever other attributes follow; the result is `ℓ` (utf-16 labels map to utf-8) -/
+theorem meta_pragma (v1 v2 : Bytes) (rest : List (Bytes × Bytes)) (ts : List Tag)
+    (hct : lowerASCII v1 = kContentType) (hl : fromMetaElement (lowerASCII v2) ≠ [])
+    (hrest : ∀ p ∈ rest, p.1 ≠ kContent ∧ p.1 ≠ kwCharset ∧ p.1 ≠ kHttpEquiv) :
+    fromHTMLToks ({ name := kMeta, attrs := (kHttpEquiv, v1) :: (kContent, v2) :: rest } :: ts) =
+      finalLabel (fromMetaElement (lowerASCII v2)) ∧
+    fromHTMLToks ({ name := kMeta, attrs := (kContent, v2) :: (kHttpEquiv, v1) :: rest } :: ts) =
+      finalLabel (fromMetaElement (lowerASCII v2)) := by
+  have hl' : (fromMetaElement (lowerASCII v2) != []) = true := by simpa using hl
+  have e1 : (kContent == kHttpEquiv) = false := by decide
+  have e2 : (kHttpEquiv == kContent) = false := by decide
+  constructor
+  · simp only [fromHTMLToks, bne_self_eq_false, Bool.false_eq_true, ↓reduceIte, metaAttrs, List.contains_nil,
+      beq_self_eq_true, hct, List.contains_cons, e1, Bool.or_false, hl']
+    rw [metaAttrs_inert rest _ _ _ _ hrest]
+    simp [finalLabel]
+  · simp only [fromHTMLToks, bne_self_eq_false, Bool.false_eq_true, ↓reduceIte, metaAttrs, List.contains_nil,
+      beq_self_eq_true, hct, List.contains_cons, e1, e2, Bool.or_false, hl']
+    rw [metaAttrs_inert rest _ _ _ _ hrest]
+    simp [finalLabel]
+
+/-- **meta charset, any attribute position**: inert attributes may come before and after -/
+theorem meta_charset_anywhere (label : Bytes) (pre post : List (Bytes × Bytes)) (ts : List Tag)
+    (hpre : ∀ p ∈ pre, p.1 ≠ kContent ∧ p.1 ≠ kwCharset ∧ p.1 ≠ kHttpEquiv)
+    (hpost : ∀ p ∈ post, p.1 ≠ kContent ∧ p.1 ≠ kwCharset ∧ p.1 ≠ kHttpEquiv) :
+    fromHTMLToks ({ name := kMeta, attrs := pre ++ (kwCharset, label) :: post } :: ts) = finalLabel (lowerASCII label) := by
+  have key : ∀ (pre : List (Bytes × Bytes)) (seen : List Bytes), (∀ k ∈ seen, k ≠ kwCharset) →
+      (∀ p ∈ pre, p.1 ≠ kContent ∧ p.1 ≠ kwCharset ∧ p.1 ≠ kHttpEquiv) →
+      metaAttrs (pre ++ (kwCharset, label) :: post) seen false .dontKnow [] = (false, .doNot, lowerASCII label) := by
+    intro pre
+    induction pre with
+    | nil =>
+      intro seen hs _
+      simp only [List.nil_append, metaAttrs]
+      have hc : seen.contains kwCharset = false := by
+        rw [List.contains_eq_any_beq, List.any_eq_false]
+        intro x hx
+        have := hs x hx
+        simpa using fun e => this e.symm
+      have e1 : (kwCharset == kHttpEquiv) = false := by decide
+      have e2 : (kwCharset == kContent) = false := by decide
+      simp only [hc, Bool.false_eq_true, ↓reduceIte, e1, e2, beq_self_eq_true]
+      exact metaAttrs_inert post _ _ _ _ hpost
+    | cons p ps ih =>
+      intro seen hs hp
+      obtain ⟨k, v⟩ := p
+      have h1 := hp (k, v) (List.mem_cons_self ..)
+      simp only at h1
+      simp only [List.cons_append, metaAttrs]
+      split
+      · exact ih seen hs (fun q hq => hp q (List.mem_cons_of_mem _ hq))
+      · have a1 : (k == kHttpEquiv) = false := by simpa using h1.2.2
+        have a2 : (k == kContent) = false := by simpa using h1.1
+        have a3 : (k == kwCharset) = false := by simpa using h1.2.1
+        simp only [a1, a2, a3, Bool.false_eq_true, ↓reduceIte]
+        exact ih (k :: seen) (by
+          intro x hx
+          cases hx with
+          | head => exact h1.2.1
+          | tail _ h => exact hs x h) (fun q hq => hp q (List.mem_cons_of_mem _ hq))
+  simp only [fromHTMLToks, bne_self_eq_false, Bool.false_eq_true, ↓reduceIte]
+  rw [key pre [] (by simp) hpre]
+  simp [finalLabel]
+
+/- non-vacuity -/
+example : fromMetaElement [116, 101, 120, 116, 47, 104, 116, 109, 108, 59, 32, 99, 104, 97, 114, 115, 101, 116, 61, 107, 111, 105, 56, 45, 114]
+    = [107, 111, 105, 56, 45, 114] := by decide   -- "text/html; charset=koi8-r"
+
 end Mime.C12
